@@ -5,6 +5,7 @@ package harness
 import (
 	"encoding/json"
 	"fmt"
+	"github.com/siderolabs/gen/optional"
 	"hash/fnv"
 	"os"
 	"path/filepath"
@@ -276,3 +277,5 @@ func sortedKeys[V any](m map[string]V) []string {
 
 	return ks
 }
+
+func optionalUint(n uint) optional.Optional[uint] { return optional.Some(n) }
